@@ -132,7 +132,7 @@ func init() {
 				"a case is one (document, options, sequence); states = distinct (options, reference document) reached"}
 		if tier == "thorough" {
 			p.Alpha = []*AlphaCfg{first, first}
-			return []*seqProp{p, deepPhase(p, first, DqCore)}
+			return append([]*seqProp{p, deepPhase(p, first, DqCore)}, sizePhases(p, tier, 3, false)...)
 		}
 		mini := miniDeep(p, `{"a":{"x":1},"k":[0]}`)
 		// the package-level defaults (SupportNegativeIndices) through Apply AND ApplyIndent
@@ -148,8 +148,8 @@ func init() {
 				}
 			},
 			Rule: "package-level defaults (SupportNegativeIndices on/off set through the package variable) through Apply and ApplyIndent on two array documents, depth 2: reference result, and ApplyIndent succeeds exactly when Apply does"}
-		return []*seqProp{p, mini, microDeep(p, `{"a":[1]}`, 4), defs, scalePhase(p)}
-	}, 150*time.Second, 25*time.Minute)
+		return append([]*seqProp{p, mini, microDeep(p, `{"a":[1]}`, 4), defs, scalePhase(p)}, sizePhases(p, tier, 3, false)...)
+	}, 240*time.Second, 25*time.Minute)
 }
 
 // DqCore: the documents used for depth-3 exploration (one per structural family).
@@ -251,8 +251,8 @@ func init() {
 		if tier == "thorough" {
 			return []*seqProp{p, deepPhase(p, &AlphaCfg{}, append(append([]string(nil), DqCore...), Dq[4]))}
 		}
-		return []*seqProp{p, miniDeep(p, `{"b":{"y":1.0,"x":null},"a":[1e400]}`), scalePhase(p)}
-	}, 150*time.Second, 25*time.Minute)
+		return append([]*seqProp{p, miniDeep(p, `{"b":{"y":1.0,"x":null},"a":[1e400]}`), scalePhase(p)}, sizePhases(p, tier, 2, false)...)
+	}, 240*time.Second, 25*time.Minute)
 
 	// C08 — failures return nothing and say why
 	registerSeq("C08", func(tier string) *seqProp {
@@ -279,7 +279,7 @@ func init() {
 			p.Alpha = []*AlphaCfg{{}, a}
 		}
 		return p
-	}, 150*time.Second, 25*time.Minute)
+	}, 240*time.Second, 25*time.Minute)
 
 	// C13 — AllowMissingPathOnRemove
 	registerSeqMulti("C13", func(tier string) []*seqProp {
@@ -293,10 +293,11 @@ func init() {
 			p.Alpha = []*AlphaCfg{{InteriorNeg: true}, a}
 			d := deepPhase(p, a, DqCore)
 			d.Alpha[2] = &AlphaCfg{Values: v1n, ReplValues: v1n, Kinds: kinds("remove", "move", "add", "test")}
-			return []*seqProp{p, d}
+			return append([]*seqProp{p, d, widthSizePhase(p, []int{31, 32, 33, 63, 64, 65, 127, 128, 129}, 4, false)}, sizePhases(p, tier, 3, true)...)
 		}
-		return []*seqProp{p, miniDeep(p, `{"a":{"x":1},"k":[0]}`)}
-	}, 150*time.Second, 25*time.Minute)
+		return []*seqProp{p, miniDeep(p, `{"a":{"x":1},"k":[0]}`),
+			widthSizePhase(p, []int{0, 1, 2, 7, 8, 9, 15, 16, 17, 31, 32, 33, 63, 64, 65, 127, 128, 129}, 3, false), widthSizePhase(p, []int{255, 256, 257, 1024}, 2, false)}
+	}, 240*time.Second, 25*time.Minute)
 
 	// C14 — EnsurePathExistsOnAdd
 	registerSeqMulti("C14", func(tier string) []*seqProp {
@@ -340,7 +341,7 @@ func init() {
 			Alpha: []*AlphaCfg{m1, {Kinds: kinds("copy", "test"), MaxFroms: 4, Values: v1n}, m1}, Judge: judgeC14,
 			Rule: "option on, DEPTH 3: add path of <= 2 tokens ; copy or test ; add path of <= 2 tokens (the second add must not rely on anything remembered from the first)"}
 		return []*seqProp{p, rev, big, mini}
-	}, 150*time.Second, 25*time.Minute)
+	}, 240*time.Second, 25*time.Minute)
 
 	// C15 — well-formed outputs, escaping, indentation (Apply part)
 	registerSeqPlus("C15", func(ctx *core.Ctx, tier string) {
@@ -369,10 +370,10 @@ func init() {
 			d.Depth = 3
 			d.Alpha = []*AlphaCfg{a, {Values: vals[:2], ReplValues: vals[:1], MaxFroms: 4}, {Values: vals[:1], ReplValues: vals[:1], Kinds: kinds("test", "add", "move", "copy"), MaxFroms: 4}}
 			d.Rule = "DEPTH 3 on four documents with reduced second/third alphabets; same oracle"
-			return []*seqProp{p, &d}
+			return []*seqProp{p, &d, stringSizePhase(p, tier)}
 		}
-		return []*seqProp{p}
-	}, 150*time.Second, 25*time.Minute)
+		return []*seqProp{p, stringSizePhase(p, tier)}
+	}, 240*time.Second, 25*time.Minute)
 
 	// C18 — legacy Apply
 	registerSeqMulti("C18", func(tier string) []*seqProp {
@@ -385,25 +386,12 @@ func init() {
 				"sequences whose first inapplicable operation is a failed test, a remove/move of an absent target or an out-of-range index must return an error and no document; other failures are outside the stated domain"}
 		if tier == "thorough" {
 			p.Docs = append(p.Docs, Dq[12], Dq[13])
-			return []*seqProp{p, deepPhase(p, a, []string{Dq[0], Dq[2], Dq[3], Dq[10]})}
+			return append([]*seqProp{p, deepPhase(p, a, []string{Dq[0], Dq[2], Dq[3], Dq[10]})}, sizePhases(p, tier, 3, false)...)
 		}
 		// a small depth-3 phase on every change (it finds the copied-null defect of the legacy package)
 		mini := miniDeep(p, `{"a":{"x":1},"k":[0]}`)
-		// the package-level defaults (SupportNegativeIndices) through Apply AND ApplyIndent
-		defs := &seqProp{ID: "C01", UseDefaults: true, Docs: []string{Dq[2], Dq[10]}, Opts: optsNeg(defaultOpt), Depth: 2,
-			Alpha: []*AlphaCfg{{Values: v2, ReplValues: v1n}, {Values: v1n, ReplValues: v1n, Kinds: kinds("add", "remove", "test"), MaxFroms: 4}},
-			Judge: func(r *seqRun) {
-				if !judgeResult(r, false) || r.obs.Panic != "" || r.obs.DecodeErr != "" {
-					return
-				}
-				oi := r.exec(" ")
-				if oi.Panic == "" && (oi.Err == "") != (r.obs.Err == "") {
-					r.viol("indent-variant-differs", "indent-variant-differs:"+r.lastKind(), fmt.Sprintf("package defaults: Apply err=%q, ApplyIndent err=%q out=%q", r.obs.Err, oi.Err, oi.Out))
-				}
-			},
-			Rule: "package-level defaults (SupportNegativeIndices on/off set through the package variable) through Apply and ApplyIndent on two array documents, depth 2: reference result, and ApplyIndent succeeds exactly when Apply does"}
-		return []*seqProp{p, mini, defs, scalePhase(p)}
-	}, 150*time.Second, 25*time.Minute)
+		return append([]*seqProp{p, mini, scalePhase(p)}, sizePhases(p, tier, 3, false)...)
+	}, 240*time.Second, 25*time.Minute)
 }
 
 func init() {
@@ -489,7 +477,7 @@ func init() {
 			Alpha: []*AlphaCfg{{Custom: bigSrc}}, Judge: judgeC12,
 			Rule: "v5 per-call option, SCALE: an 8 KB pretty-printed array copied raw and after a test has parsed it, sequences <= 3, limits around every total (the duplicate is compact: 2.5 / 4.6 KB)"}
 		return append([]*seqProp{perCall, defaults, legacy, viaRoot, chain, large}, extra...)
-	}, 150*time.Second, 25*time.Minute)
+	}, 240*time.Second, 25*time.Minute)
 }
 
 func init() {
@@ -585,7 +573,7 @@ func init() {
 	}, false)
 	registerMerge("C06", func(ctx *core.Ctx, tier string) {
 		ctx.Rep.Rule = "Equal(a,b) vs reference structural equality (numbers by literal; numerically-equal-but-differently-spelled pairs are DontCare) for all ordered pairs of V3 (quick) / V4 (thorough), each value also in reordered, whitespace-padded and \\u-escaped spellings; every JSON string escape (solidus, quote, backslash, b f n r t, uXXXX in both cases, surrogate pairs) in all spellings at the root, in arrays, as member value and as member name; " +
-			"agreement with an equivalence relation on the whole set gives reflexivity, symmetry and transitivity there; malformed inputs are added by bytex (see C04/C16 clauses in this check)"
+			"agreement with an equivalence relation on the whole set gives reflexivity, symmetry and transitivity there; on 31 texts with REPEATED member names (no value oracle) the three laws are checked directly over all pairs and triples; size sweeps: strings 0..130 and around 256..65536 bytes, objects and arrays of 0..70 and around 128..1024 parts, nesting 1..70 and around 100..1002, all pairs inside each cluster in every spelling; malformed inputs are added by bytex (see C04/C16 clauses in this check)"
 		vs := famV3()
 		if tier == "thorough" {
 			vs = famV4()
@@ -596,6 +584,7 @@ func init() {
 		runEqualPairs(ctx, "C06", false, neighbourObjects(), true)
 		runSizeSweep(ctx, "C06", false, tier, sizeWhat{equal: true})
 		runEqualEscapes(ctx, "C06")
+		runEqualLaws(ctx, "C06")
 		runEqualMalformed(ctx, "C06", tier)
 	}, false)
 	registerMerge("C07", func(ctx *core.Ctx, tier string) {
